@@ -44,7 +44,7 @@ pub fn main(args: Args) {
         run.finish(&[]);
     }
 
-    let n = args.budget("cases", 120, 4000);
+    let n = args.budget("cases", 140, 4000);
     for (arm, var) in ARMS.iter() {
         set_arm(*var);
         let o = opts_for(&args, arm, false, true);
